@@ -5,7 +5,7 @@ import (
 	"io"
 )
 
-var vfLen, vfLen2, vfMode, vfProto, vfShape, vfWide int
+var vfLen, vfLen2, vfMode, vfProto, vfShape, vfWide, vfFlags int
 
 // vfProto: 0 = binary strict, 1 = binary non-strict, 2 = compact
 func proto() Protocol {
